@@ -133,9 +133,15 @@ func (p *parser) parseMessageText() (dataItem ast.ItemNode, ok bool) {
 	var length int
 	for i, b := range lengthBytes {
 		shift := (lengthBytesCount - i - 1) * 8
-		length += int(b << shift)
+		length += int(b) << shift
 	}
 	p.pos += lengthBytesCount
+
+	// The declared length cannot exceed the bytes that are left: a list needs at
+	// least two bytes per element, every other format one byte per length unit.
+	if length > len(p.input)-p.pos {
+		return ast.NewEmptyItemNode(), false
+	}
 
 	switch formatCode {
 	case formatCodeList:
@@ -149,10 +155,7 @@ func (p *parser) parseMessageText() (dataItem ast.ItemNode, ok bool) {
 		return ast.NewListNode(values...), true
 
 	case formatCodeASCII:
-		var str string
-		for _, v := range p.input[p.pos : p.pos+length] {
-			str += string(v)
-		}
+		str := string(p.input[p.pos : p.pos+length])
 		p.pos += length
 		return ast.NewASCIINode(str), true
 
